@@ -84,6 +84,26 @@ Fixpoint unreachable_from (body : list stmt) : list stmt :=
   | s :: tl => if is_blocking s PNone then tl else unreachable_from tl
   end.
 
+(* fixes.delete_unreachable_code, the branch for an `if` / `while` whose test is a literal (fixes.py:991-1012):
+   what it deletes of that statement *)
+Inductive dead := DNothing | DNode | DBody | DOrelse.
+Definition dead_const (s : stmt) : dead :=
+  match s with
+  | SWhile TFalse _ [] => DNode              (* the else clause of a loop that never runs is executed *)
+  | SIf TTrue (_ :: _) _ => DOrelse          (* every child of the else branch *)
+  | SIf TFalse _ (_ :: _) => DBody           (* every child of the body *)
+  | SIf TTrue [] _ | SIf TFalse _ [] => DNode
+  | _ => DNothing
+  end.
+(* what is left of the statement (an emptied body is filled with `pass` by the rewriter) *)
+Definition apply_dead (s : stmt) : list stmt :=
+  match dead_const s, s with
+  | DNode, _ => []
+  | DOrelse, SIf t b _ => [SIf t b []]
+  | DBody, SIf t _ o => [SIf t [] o]
+  | _, _ => [s]
+  end.
+
 (* ---------------- reference semantics: possible outcomes ---------------- *)
 Record outs := mkO { o_n : bool; o_r : bool; o_e : bool; o_b : bool; o_c : bool }.
 Definition o_none := mkO false false false false false.
@@ -167,5 +187,7 @@ Definition flow_case_ok (c : stmt * list bool) : bool :=
                     && Bool.eqb (is_blocking s PWhile) d && Bool.eqb (may_leave s) e
   | _ => false
   end.
+
+Definition dead_code (d : dead) : nat := match d with DNothing => 0 | DNode => 1 | DBody => 2 | DOrelse => 3 end.
 
 Definition outs_list (o : outs) : list bool := [o_n o; o_r o; o_e o; o_b o; o_c o].
